@@ -125,6 +125,7 @@ const HEADERS_GET: &str = "01080000d1d7500161c1";
 ///   u  the peer first opens a uni stream whose type byte has not arrived
 ///   q  the peer's QPACK encoder/decoder streams arrive before its control stream
 ///   t  the control stream's type byte, frame header and payload arrive in separate chunks
+///   n  every peer GOAWAY shares its chunk with MAX_PUSH_ID, CANCEL_PUSH and a reserved-type frame sent just before it
 ///   l  the peer's control stream arrives late: just before its first GOAWAY
 #[derive(Clone, Copy, Default)]
 struct Env {
@@ -134,6 +135,7 @@ struct Env {
     qpack_first: bool,
     split_type: bool,
     late_ctl: bool,
+    noise: bool,
 }
 fn parse_env(fam: &str) -> Env {
     let mut e = Env::default();
@@ -146,6 +148,7 @@ fn parse_env(fam: &str) -> Env {
                 'q' => e.qpack_first = true,
                 't' => e.split_type = true,
                 'l' => e.late_ctl = true,
+                'n' => e.noise = true,
                 _ => panic!("unknown environment letter"),
             }
         }
@@ -286,6 +289,7 @@ fn drain_case(fam: &str, ops: &str) -> String {
     let mut ever_handed: std::collections::HashSet<u64> = std::collections::HashSet::new();
     let mut groups: Vec<String> = Vec::new();
     let mut dead = false;
+    let mut partial: Option<String> = None;
     let mut seen_events = 0usize;
     let mut log_pos = w.lock().unwrap().log.len();
     let mut wire_pos = 0usize;
@@ -320,7 +324,31 @@ fn drain_case(fam: &str, ops: &str) -> String {
                     peer_control_stream(&w, 2, &env);
                     ctl_delivered = true;
                 }
-                assert!(apply_event(&w, &format!("2:c:{}", goaway_frame(id))));
+                let noise = if env.noise { "0d0101030100210100" } else { "" };
+                assert!(apply_event(&w, &format!("2:c:{}{}", noise, goaway_frame(id))));
+                groups.push(".".into());
+            }
+            b'H' => {
+                // H<pid>:<k> the first k bytes of GOAWAY(pid) arrive; H+ the rest of that frame arrives
+                if !ctl_delivered {
+                    peer_control_stream(&w, 2, &env);
+                    ctl_delivered = true;
+                }
+                if arg == "+" {
+                    if let Some(rest) = partial.take() {
+                        if !rest.is_empty() {
+                            assert!(apply_event(&w, &format!("2:c:{}", rest)));
+                        }
+                    }
+                } else {
+                    let mut it = arg.split(':');
+                    let id: u64 = it.next().unwrap().parse().unwrap();
+                    let k: usize = it.next().unwrap().parse().unwrap();
+                    let f = goaway_frame(id);
+                    let k = k.min(f.len() / 2 - 1).max(1);
+                    assert!(apply_event(&w, &format!("2:c:{}", &f[..2 * k])));
+                    partial = Some(f[2 * k..].to_string());
+                }
                 groups.push(".".into());
             }
             b'P' => {
@@ -506,6 +534,47 @@ fn apply_action(w: &Shared, objs: &mut HashMap<u64, Obj>, id: u64, act: &str) ->
                 _ => "skip".into(),
             }
         }
+        // every other public method of the request handle: none of them ends the request
+        "data" | "trailers" | "stopstream" => {
+            match objs.get_mut(&id) {
+                Some(Obj::Whole(s)) => {
+                    match act {
+                        "data" => { let _ = poll_once(s.send_data(Bytes::from_static(b"xy"))); }
+                        "trailers" => { let _ = poll_once(s.send_trailers(http::HeaderMap::new())); }
+                        _ => s.stop_stream(h3::error::Code::H3_NO_ERROR),
+                    }
+                    ".".into()
+                }
+                Some(Obj::Halves(Some(s), _)) => {
+                    match act {
+                        "data" => { let _ = poll_once(s.send_data(Bytes::from_static(b"xy"))); }
+                        "trailers" => { let _ = poll_once(s.send_trailers(http::HeaderMap::new())); }
+                        _ => s.stop_stream(h3::error::Code::H3_NO_ERROR),
+                    }
+                    ".".into()
+                }
+                _ => "skip".into(),
+            }
+        }
+        "recv" | "rtrailers" | "stopsending" => match objs.get_mut(&id) {
+            Some(Obj::Whole(s)) => {
+                match act {
+                    "recv" => { let _ = poll_once(s.recv_data()).map(|r| r.map(|o| o.map(|_| ()))); }
+                    "rtrailers" => { let _ = poll_once(s.recv_trailers()); }
+                    _ => s.stop_sending(h3::error::Code::H3_NO_ERROR),
+                }
+                ".".into()
+            }
+            Some(Obj::Halves(_, Some(s))) => {
+                match act {
+                    "recv" => { let _ = poll_once(s.recv_data()).map(|r| r.map(|o| o.map(|_| ()))); }
+                    "rtrailers" => { let _ = poll_once(s.recv_trailers()); }
+                    _ => s.stop_sending(h3::error::Code::H3_NO_ERROR),
+                }
+                ".".into()
+            }
+            _ => "skip".into(),
+        },
         "rstafter" => match objs.get_mut(&id) {
             Some(Obj::Whole(s)) => {
                 ev(format!("{}:R268", id));
